@@ -25,6 +25,9 @@ fn run_line(line: &str) -> String {
     match cmd {
         "match" => codec::cmd_match(&mut t),
         "matchraw" => codec::cmd_matchraw(&mut t),
+        "ctor_tags" => codec::cmd_ctor_tags(&mut t),
+        "ctor_event" => codec::cmd_ctor_event(&mut t),
+        "ctor_filter" => codec::cmd_ctor_filter(&mut t),
         "hll_add" => codec::cmd_hll_add(&mut t),
         "hll_hex" => codec::cmd_hll_hex(&mut t),
         "hll_env" => codec::cmd_hll_env(&mut t),
